@@ -14,8 +14,8 @@ META = {
              "address of the byte that follows it in the image; --lst writes <first output minus its format suffix>.lst beside the first output",
     "technique": "CrossHair symbolic execution of Compiler.generate_listing and of main_cli's listing branch with symbolic symbol values, label "
                  "distances and link base; z3 decides membership, order and number rendering for all values in the stated windows",
-    "bounds": "2..4 symbols in 1..2 files; ordering: three symbols with values in -4..4 (every tie and inversion); rendering: one symbol over "
-              "[-600, 600], [2^16-16, 2^16+16], [2^18-4, 2^18+4] (oct() is realised by CrossHair); label distances 0..4; base 0..8 and 504..520",
+    "bounds": "2..4 symbols in 1..2 files; ordering: three symbols with values in -2..2 (thorough -4..4) (every tie and inversion); rendering: one symbol over "
+              "[-600, 600], [2^16-16, 2^16+16], [2^18-4, 2^18+4] (oct() is realised by CrossHair); label distances 0..2 (thorough 0..4); base 0..2 and 510..513",
     "outside": ["values outside the rendering windows", "more than 4 symbols per file"],
     "structure": "constants and labels, one and two files, local labels (must not be listed), output selectors -o *.bin / -o raw / --implicit-bin / "
                  "make_bin / none",
@@ -69,7 +69,7 @@ def h_order(params, vals, ctx):
     names = params["names"]
     vs = [vals[f"V{i + 1}"] for i in range(len(names))]
     for v in vs:
-        require(-4 <= v <= 4)
+        require(-params.get("span", 2) <= v <= params.get("span", 2))
     vs = [concretize(v) for v in vs]
     vals = {f"V{i + 1}": v for i, v in enumerate(vs)}
     lines = [f"{n} = {{V{i + 1}}}" for i, n in enumerate(names)]
@@ -98,15 +98,16 @@ def h_order(params, vals, ctx):
 def h_labels(params, vals, ctx):
     """A listed label address is where the byte following the label lies in the image."""
     b, n, k = vals["B"], vals["N"], vals["K"]
-    require(0 <= b <= 8 or 504 <= b <= 520)  # the listing renders addresses with oct(): one path per value
-    require(0 <= n <= 4 and 0 <= k <= 4)
+    require(0 <= b <= 2 or 510 <= b <= 513)  # the listing renders addresses with oct(): one path per value
+    require(0 <= n <= params.get("dmax", 2) and 0 <= k <= params.get("dmax", 2))
     text = ".link {B}\nfirst: .byte 101\n.blkb {N}\nsecond: .byte 102\n1: .byte 7\nC = second - first\n. = . + {K}\nthird:: .byte 103\n"
+    n, k, b = concretize(n), concretize(k), concretize(b)  # rendered with oct() anyway: one path per value
+    vals = {"B": b, "N": n, "K": k}
     o = assemble([("/w/a.mac", text)], vals, route=ctx.route)
     ctx.observe_outcome(o)
     ctx.reach(o.status == "ok")
     if o.status != "ok" or o.errors:
         return False
-    n, k, b = concretize(n), concretize(k), concretize(b)
     with notrace():
         text = o.comp.generate_listing()
         try:
@@ -195,11 +196,12 @@ def obligations(tier, seed):
     obs = []
     for nm, win in (("small", [-600, 600] if tier == "thorough" else [-70, 70]), ("16bit", [65536 - 16, 65536 + 16]), ("18bit", [2 ** 18 - 4, 2 ** 18 + 4]), ("neg16", [-65536 - 8, -65536 + 8])):
         obs.append(Ob(oid=f"render/{nm}", harness=P + "h_render", params={"window": win}, vars={"V": "int"}, timeout=900))
-    obs.append(Ob(oid="order/3", harness=P + "h_order", params={"names": ["mid", "Alpha", "zed"]}, vars={"V1": "int", "V2": "int", "V3": "int"}, timeout=1200))
+    obs.append(Ob(oid="order/3", harness=P + "h_order", params={"names": ["mid", "Alpha", "zed"], "span": 4 if tier == "thorough" else 2}, vars={"V1": "int", "V2": "int", "V3": "int"}, timeout=1200))
     obs.append(Ob(oid="order/2+file2", harness=P + "h_order", params={"names": ["b", "a"], "second": True}, vars={"V1": "int", "V2": "int"}, timeout=600))
     if tier == "thorough":
         obs.append(Ob(oid="order/4", harness=P + "h_order", params={"names": ["d", "b", "a", "c"]}, vars={f"V{i}": "int" for i in range(1, 5)}, timeout=3000))
-    obs.append(Ob(oid="labels", harness=P + "h_labels", params={}, vars={"B": "int", "N": "int", "K": "int"}, timeout=900))
+    obs.append(Ob(oid="labels", harness=P + "h_labels", params={"dmax": 4 if tier == "thorough" else 2}, vars={"B": "int", "N": "int", "K": "int"},
+                  timeout=3000 if tier == "thorough" else 900))
     for sel in ("none", "o-bin", "o-BIN", "o-raw", "implicit", "make_bin", "make_raw+make_bin", "make+o"):
         obs.append(Ob(oid=f"lstpath/{sel}", harness=P + "h_lstpath", params={"selector": sel}, vars={"X": "int"}, timeout=600))
     return obs
